@@ -190,15 +190,13 @@ theorem stmtSetplugstate_frame (Q d a o e l p s i) (hQ : QOff Q d) : StmtFrame Q
   · unfold stmtSetplugstate; grind
   · intro al
     unfold stmtSetplugstate
+    dsimp only
     split
     · rfl
-    · dsimp only
-      split
+    · split
+      · rename_i s0 plug hs hf
+        exact setArgs_upd_cellQ Q d a.arglist _ (fun g => { g with state := (pickState askRx s0 i o []).2.1, val := some s0 }) (fun g => rfl) (findPlug_QOff Q d hQ _ _ hf) al
       · rfl
-      · split
-        · rename_i s0 plug hs hf
-          exact setArgs_upd_cellQ Q d a.arglist _ (fun g => { g with state := (pickState askRx s0 i o []).2.1, val := some s0 }) (fun g => rfl) (findPlug_QOff Q d hQ _ _ hf) al
-        · rfl
 
 theorem stmtSetresult_frame (Q d a o p s i) (hQ : QOff Q d) : StmtFrame Q d a (stmtSetresult d a o p s i) := by
   have h1 := fun s l o => pickResult_addr s l o [] (by simp)
@@ -216,11 +214,9 @@ theorem stmtSetresult_frame (Q d a o p s i) (hQ : QOff Q d) : StmtFrame Q d a (s
     split
     · rfl
     · split
+      · rename_i s0 plug hs hf
+        exact setArgs_upd_cellQ Q d a.arglist _ (fun g => { g with result := (pickResult askRx s0 i o []).2.1, val := some s0 }) (fun g => rfl) (findPlug_QOff Q d hQ _ _ hf) al
       · rfl
-      · split
-        · rename_i s0 plug hs hf
-          exact setArgs_upd_cellQ Q d a.arglist _ (fun g => { g with result := (pickResult askRx s0 i o []).2.1, val := some s0 }) (fun g => rfl) (findPlug_QOff Q d hQ _ _ hf) al
-        · rfl
 
 theorem processStmt_frame (Q : Bytes → Bool) (d : Dev) (a : Action) (o : Oracle) (now : Time) (hQ : QOff Q d) :
     StmtFrame Q d a (processStmt d a o now) := by
@@ -403,10 +399,12 @@ def hrWrite (c : CS) : CS × Bool × Bool :=
     else (c2, false, true)
   else
     if c.dev.toBuf.isEmpty then (c, true, false)
-    else if c.env.writeOk then ({ c with sys := c.sys ++ [.write c.dev.toBuf true], dev := { c.dev with toBuf := [] } }, false, false)
+    else if c.env.writeOk then
+      if c.env.wcap == 0 then ({ c with sys := c.sys ++ [.write [] true] }, true, false)
+      else ({ c with sys := c.sys ++ [.write (c.dev.toBuf.take c.env.wcap) true], dev := { c.dev with toBuf := c.dev.toBuf.drop c.env.wcap } }, false, false)
     else ({ c with sys := c.sys ++ [.write c.dev.toBuf false] }, true, false)
 
-/-- the read half -/
+/-- the read half, after the capacity half `clipRead` -/
 def hrRead (c : CS) : CS × Bool :=
   match c.env.read with
   | some (some bs) =>
@@ -424,7 +422,7 @@ def handleReady' (c : CS) : CS × Bool :=
   let w := if f &&& 2 != 0 then hrWrite c else (c, false, false)
   if w.2.1 then (w.1, true) else
   if w.2.2 then (w.1, false) else
-  if f &&& 1 != 0 then hrRead w.1 else (w.1, false)
+  if f &&& 1 != 0 then hrRead (clipRead w.1) else (w.1, false)
 
 theorem handleReady_eq (c : CS) : handleReady c = handleReady' c := by
   unfold handleReady handleReady' hrWrite hrRead hrClose
@@ -457,12 +455,20 @@ theorem hrWrite_core (c : CS) :
       · exact Or.inl h2
   · split
     · exact Or.inl rfl
-    · split <;> exact Or.inl rfl
+    · split
+      · split <;> exact Or.inl rfl
+      · exact Or.inl rfl
 
-theorem hrRead_core (c : CS) : core (hrRead c).1.dev = core c.dev := by
+theorem hrRead_core0 (c : CS) : core (hrRead c).1.dev = core c.dev := by
   have h2 := telnetFilter_core
   unfold hrRead
   grind [core]
+
+theorem clipRead_core (c : CS) : core (clipRead c).dev = core c.dev := by
+  simp [core]
+
+theorem hrRead_core (c : CS) : core (hrRead (clipRead c)).1.dev = core c.dev := by
+  rw [hrRead_core0, clipRead_core]
 
 theorem DevFrame.of_core_login {d d' : Dev} (h : core d' = core d ∨ core d' = core (enqueueLogin d)) : DevFrame d d' := by
   rcases h with h | h
@@ -766,7 +772,6 @@ def spsTarget (d : Dev) (e : ExecCtx) (lit : Option Bytes) (plugMp statMp : Int)
     | _, _ => none
 
 def stmtSetplugstate' (d : Dev) (a : Action) (o : Oracle) (e : ExecCtx) (lit : Option Bytes) (plugMp statMp : Int) (interps : List (PState × Nat)) : StepR :=
-  if !d.xmUsed then ⟨d, a, o, [.abortAssert "xm_used"], true⟩ else
   match spsTarget d e lit plugMp statMp with
   | none => ⟨d, a, o, [], true⟩
   | some (s, plug) =>
@@ -777,16 +782,14 @@ def stmtSetplugstate' (d : Dev) (a : Action) (o : Oracle) (e : ExecCtx) (lit : O
 theorem stmtSetplugstate_eq (d a o e lit plugMp statMp interps) :
     stmtSetplugstate d a o e lit plugMp statMp interps = stmtSetplugstate' d a o e lit plugMp statMp interps := by
   unfold stmtSetplugstate stmtSetplugstate' spsTarget
-  split
-  · rfl
-  · rcases lit with _ | n
-    · rcases hsub : subOf d plugMp with _ | n
-      · rcases hp : e.plugs with _ | (_ | ⟨p, t⟩)
-        · rfl
-        · rfl
-        · dsimp only; cases subOf d statMp <;> cases findPlug d p.name <;> rfl
-      · dsimp only; cases subOf d statMp <;> cases findPlug d n <;> rfl
+  rcases lit with _ | n
+  · rcases hsub : subOf d plugMp with _ | n
+    · rcases hp : e.plugs with _ | (_ | ⟨p, t⟩)
+      · rfl
+      · rfl
+      · dsimp only; cases subOf d statMp <;> cases findPlug d p.name <;> rfl
     · dsimp only; cases subOf d statMp <;> cases findPlug d n <;> rfl
+  · dsimp only; cases subOf d statMp <;> cases findPlug d n <;> rfl
 
 def srTarget (d : Dev) (plugMp statMp : Int) : Option (Bytes × Plug) :=
   match subOf d plugMp with
@@ -797,7 +800,6 @@ def srTarget (d : Dev) (plugMp statMp : Int) : Option (Bytes × Plug) :=
     | _, _ => none
 
 def stmtSetresult' (d : Dev) (a : Action) (o : Oracle) (plugMp statMp : Int) (interps : List (PResult × Nat)) : StepR :=
-  if !d.xmUsed then ⟨d, a, o, [.abortAssert "xm_used"], true⟩ else
   match srTarget d plugMp statMp with
   | none => ⟨d, a, o, [], true⟩
   | some (s, plug) =>
@@ -812,13 +814,11 @@ def stmtSetresult' (d : Dev) (a : Action) (o : Oracle) (plugMp statMp : Int) (in
 theorem stmtSetresult_eq (d a o plugMp statMp interps) :
     stmtSetresult d a o plugMp statMp interps = stmtSetresult' d a o plugMp statMp interps := by
   unfold stmtSetresult stmtSetresult' srTarget
-  split
-  · rfl
-  · cases subOf d plugMp with
-    | none => rfl
-    | some pn =>
-      dsimp only
-      cases subOf d statMp <;> cases findPlug d pn <;> rfl
+  cases subOf d plugMp with
+  | none => rfl
+  | some pn =>
+    dsimp only
+    cases subOf d statMp <;> cases findPlug d pn <;> rfl
 
 /-! ### `onRun` cut after the statement loop -/
 
